@@ -319,6 +319,8 @@ class Ctx:
         replay['repo'] = REPO
         h = stable_hash(replay)
         path = os.path.join(VERIF, 'replays', f"{self.prop}-{h}.json")
+        if path in self.violations:
+            return False
         with open(path, 'w') as f:
             json.dump(replay, f, indent=1, default=repr)
         line = f"VIOLATION property={self.prop} replay={path}"
